@@ -54,7 +54,23 @@ EvInterop ==
        /\ e.bwd = [x \in 1..Len(inserts) |-> Len(inserts) - x + 1]
     /\ UNCHANGED inserts
 
-TraceNext == EvReset \/ EvDict \/ EvWrote \/ EvInterop
+\* a chunk file written by the sorter itself (spilled run or merged chunks), captured from the
+\* instrumented chunk storage: same format, same cut rule, content not known in advance
+EvChunkRun == IsEvent("ChunkRun") /\ Rec[l].res = "ok" /\ UNCHANGED inserts
+EvChunk ==
+    /\ IsEvent("Chunk")
+    /\ LET e == Rec[l]
+           B == EffBlockSize(e.bs) IN
+       /\ CheckFormat => StructOk(e.file, e.codec, e.k, e.levels)
+       /\ CheckCut =>
+            /\ Root(e.file) # 0
+            /\ TreeOk(e.file, Root(e.file), 0, e.levels)
+            /\ CutRule(e.file, B, e.k, e.levels)
+            /\ CheckLower => EarlyCuts(e.file, B, e.k, e.levels) = {}
+       /\ CheckSorted => BlocksAscending(e.file)
+    /\ UNCHANGED inserts
+
+TraceNext == EvReset \/ EvDict \/ EvWrote \/ EvInterop \/ EvChunkRun \/ EvChunk
 
 TraceSpec == TraceInit /\ [][TraceNext]_vars
 
